@@ -224,6 +224,22 @@ fn check_generator(g: &G1, deep: bool) -> (Vec<(String, String, String)>, BTreeM
     if flipped[..] == long[..64] {
         bad.push(("generator/seed-ignored".into(), "seed-ignored".into(), "two seeds differing in one bit produce the same first 64 bytes".into()));
     }
+    // every one of the 64 seed bytes matters: first, last, the two around the middle (a 32-byte key
+    // would end there) and one position derived from the seed itself
+    let h = util::h64(&g.seed);
+    for (pos, bit) in [(0usize, 0u8), (31, 7), (32, 0), (63, 7), ((h % 64) as usize, ((h >> 8) % 8) as u8)] {
+        let mut s2 = g.seed;
+        s2[pos] ^= 1 << bit;
+        let f = run_history(&s2, &[GOp::Fill(64)]);
+        if f[..] == long[..64] {
+            bad.push((
+                "generator/seed-ignored".into(),
+                "seed-ignored".into(),
+                format!("flipping bit {} of seed byte {} leaves the first 64 output bytes unchanged", bit, pos),
+            ));
+            break;
+        }
+    }
     // (d) informational: independent recomputation blake3_xof(seed || counter_le) per 4096-byte block
     let mut agree = 1u64;
     for blk in 0..(span / BUF).min(8) {
